@@ -16,13 +16,14 @@ import (
 // ---------- values ----------
 
 type Val struct {
-	T     string // SMT term (scalar sorts)
-	Sort  string // Int Bool Str Iface F64 Slice Struct Tuple
-	Go    types.Type
-	Elems []*Val   // Slice: arr,off,len ; Struct: fields ; Tuple: components
-	Names []string // struct field names
-	Lit   *ast.FuncLit // function value known to be this literal (calls are inlined)
-	FromMap bool       // obtained by a plain map index m[k] (zero value when the key is absent)
+	T       string // SMT term (scalar sorts)
+	Sort    string // Int Bool Str Iface F64 Slice Struct Tuple
+	Go      types.Type
+	Elems   []*Val       // Slice: arr,off,len ; Struct: fields ; Tuple: components
+	Names   []string     // struct field names
+	Lit     *ast.FuncLit // function value known to be this literal (calls are inlined)
+	FromMap bool         // obtained by a plain map index m[k] (zero value when the key is absent)
+	Pointee *Val         // &x of a basic-typed x: the value x had when its address was taken (spec deref() only)
 }
 
 func scalar(t, sort string, g types.Type) *Val { return &Val{T: t, Sort: sort, Go: g} }
@@ -46,13 +47,13 @@ type State struct {
 	defers    []deferEntry
 	panicking bool
 	recovered bool
-	vars     map[types.Object]*Val
-	path     string
-	heap     map[string]string // heap array name -> current term
-	base     []baseAlt         // what unknown heap arrays look like: guarded alternatives of havoc epochs
-	sel      []selHavoc        // selective havocs (callee frames) since the last full havoc, oldest first
-	counters map[string]string
-	dead     bool
+	vars      map[types.Object]*Val
+	path      string
+	heap      map[string]string // heap array name -> current term
+	base      []baseAlt         // what unknown heap arrays look like: guarded alternatives of havoc epochs
+	sel       []selHavoc        // selective havocs (callee frames) since the last full havoc, oldest first
+	counters  map[string]string
+	dead      bool
 }
 
 func (s *State) clone() *State {
@@ -151,58 +152,58 @@ type Obligation struct {
 // ---------- engine ----------
 
 type Eng struct {
-	pkg       *packages.Package
-	info      *types.Info
-	fset      *token.FileSet
-	contracts *ContractSet
-	decls     []string
-	facts     []string
-	nfresh    int
-	obls      []*Obligation
-	fn        *ast.FuncDecl
-	lit       *ast.FuncLit // non-nil when the unit is a closure of fn
-	fnKey     string
-	con       *Contract
-	results   []types.Object // named or synthetic result objects
-	resNames  []string
-	oldEnv    map[string]*Val
-	tags      map[string]int
-	strLits   map[string]string
-	loopOrd   int
-	gaps      []string
-	exits     []Exit
-	allTags   *map[string]int
-	ghosts    map[string]types.Object
-	globals      map[string]*Val
-	trustedUsed  map[string]bool
-	entrySyms    []ParamSym
-	declsAtEntry []string
-	theoriesIn   map[string]bool
-	substrDone   bool
-	runesDone    bool
-	closureOrd   int
-	callOrd      map[*ast.CallExpr]int
-	declared     map[string]bool
-	heapSorts    map[string]string
-	lastArgs     []*Val
-	retCount     map[string]int
-	localRefs    map[string]bool
-	inlining     map[*ast.FuncLit]bool
-	goOrd        int
-	closAssigned map[types.Object]bool
-	inlDepth     int
-	funcIndex    *funcIndex
-	lockObjs     map[string]types.Object
-	loopNest     int // lexical loop nesting while executing (inloop clauses)
-	lockSites    int // lock/unlock events and calls of lock-taking methods examined (locks.go)
-	specPkgPath  string
-	recVar       types.Object
-	propID       string
-	curPos       token.Pos
-	prevState    *State
-	stableFields []string
-	oldState     *State // state in which old(...) is evaluated (entry state, or pre-call state for callee ensures)
-	inGo         int
+	pkg             *packages.Package
+	info            *types.Info
+	fset            *token.FileSet
+	contracts       *ContractSet
+	decls           []string
+	facts           []string
+	nfresh          int
+	obls            []*Obligation
+	fn              *ast.FuncDecl
+	lit             *ast.FuncLit // non-nil when the unit is a closure of fn
+	fnKey           string
+	con             *Contract
+	results         []types.Object // named or synthetic result objects
+	resNames        []string
+	oldEnv          map[string]*Val
+	tags            map[string]int
+	strLits         map[string]string
+	loopOrd         int
+	gaps            []string
+	exits           []Exit
+	allTags         *map[string]int
+	ghosts          map[string]types.Object
+	globals         map[string]*Val
+	trustedUsed     map[string]bool
+	entrySyms       []ParamSym
+	declsAtEntry    []string
+	theoriesIn      map[string]bool
+	substrDone      bool
+	runesDone       bool
+	closureOrd      int
+	callOrd         map[*ast.CallExpr]int
+	declared        map[string]bool
+	heapSorts       map[string]string
+	lastArgs        []*Val
+	retCount        map[string]int
+	localRefs       map[string]bool
+	inlining        map[*ast.FuncLit]bool
+	goOrd           int
+	closAssigned    map[types.Object]bool
+	inlDepth        int
+	funcIndex       *funcIndex
+	lockObjs        map[string]types.Object
+	loopNest        int // lexical loop nesting while executing (inloop clauses)
+	lockSites       int // lock/unlock events and calls of lock-taking methods examined (locks.go)
+	specPkgPath     string
+	recVar          types.Object
+	propID          string
+	curPos          token.Pos
+	prevState       *State
+	stableFields    []string
+	oldState        *State // state in which old(...) is evaluated (entry state, or pre-call state for callee ensures)
+	inGo            int
 	counterHavocked map[string]bool
 }
 
@@ -896,7 +897,6 @@ counters:
 	}
 	return n
 }
-
 
 // ---------- helpers ----------
 
